@@ -414,6 +414,9 @@ mut('m72-finalize-forgets', ['C04'], S, """                RcInner::decrement_st
         }
         forget(self);""", 'Rc::finalize releases nothing')
 mut('m73-atomicrc-pointer-fmt-raw', ['C11'], S, """        Pointer::fmt(&self.link.load(Ordering::Relaxed), f)""", """        Pointer::fmt(&((self.link.load(Ordering::Relaxed).as_raw() as usize | self.link.load(Ordering::Relaxed).tag()) as *const u8), f)""", 'AtomicRc {:p} prints the address with the tag in it')
+mut('m74-try-advance-reentrant', ['C07'], I, """        let Some(_scope) = AdvanceScope::enter(guard) else {
+            return global_epoch;
+        };""", """        let _scope = AdvanceScope::enter(guard);""", 're-introduces finding #11: try_advance nests through the destructions it defers')
 # ---- C19
 mut('m60-eq-ptr-eq', ['C19'], S, '''impl<T: RcObject + PartialEq> PartialEq for Rc<T> {
     #[inline(always)]
